@@ -11,7 +11,7 @@ CONSTANTS
   BigFill = {255, 97, 90}
   PairAlpha = {0, 64, 65, 90, 91, 96, 97, 122, 123, 255}
   ZAlpha = {65}
-  Modes = {"pair", "triple", "neigh", "cons"}
+  Modes = {"pair", "mimic", "triple", "neigh", "cons"}
 INVARIANT Total
 INVARIANT Antisymmetric
 INVARIANT EqualIffFold
@@ -21,6 +21,7 @@ INVARIANT CommonCoherent
 INVARIANT SplitParentCoherent
 INVARIANT RelativizeRoundTrip
 INVARIANT DeepestIsSuper
+INVARIANT SubdomainIsWireSuffix
 INVARIANT Transitive
 INVARIANT SubTransitive
 INVARIANT NeighOk
